@@ -1,10 +1,10 @@
 """Cedar-syntax schemas with hand-written JSON equivalents for the native battery of C09 (op `schema_syntax`)."""
 
 CEDAR_A = '''
-entity Group;
+entity Group tags Long;
 entity User in [Group] { n: Long, o?: Long, s: String, b: Bool, ls: Set<Long>, r: { x: Long, y?: String }, m: User, t: datetime, sr: Set<{ k: String }> } tags String;
 entity Folder in [Folder];
-entity Doc in [Folder] { owner: User, "odd key"?: Bool };
+entity Doc in [Folder] { owner: User, "odd key"?: Bool, "pad "?: Long, " lead": String };
 entity Color enum ["red", "green"];
 type Ctx = { flag: Bool, who?: User };
 action readers;
@@ -19,11 +19,11 @@ OPT = lambda t: dict(t, required=False)
 JSON_A = {'': {
     'commonTypes': {'Ctx': REC({'flag': BOOL, 'who': OPT(E_('User'))})},
     'entityTypes': {
-        'Group': {},
+        'Group': {'tags': LONG},
         'User': {'memberOfTypes': ['Group'], 'shape': REC({'n': LONG, 'o': OPT(LONG), 's': STRING, 'b': BOOL, 'ls': {'type': 'Set', 'element': LONG}, 'r': REC({'x': LONG, 'y': OPT(STRING)}), 'm': E_('User'), 't': E_('datetime'),
                                                            'sr': {'type': 'Set', 'element': REC({'k': STRING})}}), 'tags': STRING},
         'Folder': {'memberOfTypes': ['Folder']},
-        'Doc': {'memberOfTypes': ['Folder'], 'shape': REC({'owner': E_('User'), 'odd key': OPT(BOOL)})},
+        'Doc': {'memberOfTypes': ['Folder'], 'shape': REC({'owner': E_('User'), 'odd key': OPT(BOOL), 'pad ': OPT(LONG), ' lead': STRING})},
         'Color': {'enum': ['red', 'green']}},
     'actions': {
         'readers': {},
@@ -35,8 +35,9 @@ W = 'permit(principal, action, resource) when { %s };'
 PROBES_A = [W % c for c in ['principal.n + 1 == 2', 'principal.o == 1', 'principal has o && principal.o == 1', 'principal.r.x == 1', 'principal.r.y == "a"', 'principal.r has y && principal.r.y == "a"', 'principal.ls.contains(1)',
                             'principal.ls.contains("a")', 'principal.m.m.n == 1', 'principal.t < datetime("2024-01-01")', 'principal.s like "a*"', 'principal.b', 'principal.sr.contains({k: "a"})', 'principal.sr.contains({k: 1})',
                             'principal.hasTag("x") && principal.getTag("x") == "v"', 'principal.hasTag("x") && principal.getTag("x") == 1', 'resource.owner == principal', 'resource has "odd key" && resource["odd key"]',
-                            'resource["odd key"]', 'principal.zz == 1', 'context.flag', 'context.n == 1', 'context has who && context.who == principal', 'context.c == Color::"red"', 'context.c == Color::"purple"']] + \
+                            'resource["odd key"]', 'resource has "pad " && resource["pad "] == 1', 'resource has pad && resource.pad == 1', 'resource[" lead"] == "x"', 'resource.lead == "x"', 'principal.zz == 1', 'context.flag', 'context.n == 1', 'context has who && context.who == principal', 'context.c == Color::"red"', 'context.c == Color::"purple"']] + \
     ['permit(principal is User, action == Action::"view", resource is Doc) when { context.flag && resource.owner == principal };', 'permit(principal is Group, action == Action::"view", resource is Folder) when { context has who };',
+     'permit(principal is Group, action == Action::"view", resource) when { principal.hasTag("x") && principal.getTag("x") > 0 };', 'permit(principal is Group, action == Action::"view", resource) when { principal.hasTag("x") && principal.getTag("x") == "s" };',
      'permit(principal is Group, action == Action::"edit", resource);', 'permit(principal, action == Action::"edit", resource is Folder);', 'permit(principal, action == Action::"delete doc", resource) when { context.n > 0 };',
      'permit(principal, action in Action::"readers", resource) when { resource in Folder::"f" };', 'permit(principal in Group::"g", action, resource in Folder::"f");', 'permit(principal in Folder::"f", action, resource);',
      'permit(principal, action == Action::"noop", resource);', 'permit(principal, action == Action::"nonexistent", resource);', 'permit(principal == Color::"red", action, resource);', 'permit(principal is Color, action, resource);',
@@ -45,8 +46,9 @@ ENTS_A = [[{'uid': {'type': 'User', 'id': 'u'}, 'attrs': {'n': 1, 's': 'x', 'b':
            {'uid': {'type': 'Group', 'id': 'g'}, 'attrs': {}, 'parents': []}],
           [{'uid': {'type': 'User', 'id': 'u'}, 'attrs': {'n': 1, 's': 'x', 'b': True, 'ls': [1], 'r': {'x': 1}, 'm': {'type': 'User', 'id': 'u'}, 't': '2024-01-01'}, 'parents': []}],          # sr missing
           [{'uid': {'type': 'User', 'id': 'u'}, 'attrs': {'n': 1, 's': 'x', 'b': True, 'ls': [1], 'r': {'x': 1, 'z': 2}, 'm': {'type': 'User', 'id': 'u'}, 't': '2024-01-01', 'sr': []}, 'parents': []}],      # extra record field
-          [{'uid': {'type': 'Doc', 'id': 'd'}, 'attrs': {'owner': {'type': 'User', 'id': 'u'}}, 'parents': [{'type': 'Group', 'id': 'g'}]}],           # Doc cannot be in a Group
-          [{'uid': {'type': 'Doc', 'id': 'd'}, 'attrs': {'owner': {'type': 'User', 'id': 'u'}, 'odd key': False}, 'parents': [{'type': 'Folder', 'id': 'f'}]}, {'uid': {'type': 'Folder', 'id': 'f'}, 'attrs': {}, 'parents': [{'type': 'Folder', 'id': 'f2'}]}],
+          [{'uid': {'type': 'Doc', 'id': 'd'}, 'attrs': {'owner': {'type': 'User', 'id': 'u'}, ' lead': 'x'}, 'parents': [{'type': 'Group', 'id': 'g'}]}],           # Doc cannot be in a Group
+          [{'uid': {'type': 'Doc', 'id': 'd'}, 'attrs': {'owner': {'type': 'User', 'id': 'u'}, 'odd key': False, 'pad ': 1, ' lead': 'x'}, 'parents': [{'type': 'Folder', 'id': 'f'}]}, {'uid': {'type': 'Folder', 'id': 'f'}, 'attrs': {}, 'parents': [{'type': 'Folder', 'id': 'f2'}]}],
+          [{'uid': {'type': 'Group', 'id': 'g'}, 'attrs': {}, 'parents': [], 'tags': {'k': 1}}], [{'uid': {'type': 'Group', 'id': 'g'}, 'attrs': {}, 'parents': [], 'tags': {'k': 'v'}}], [{'uid': {'type': 'Doc', 'id': 'd'}, 'attrs': {'owner': {'type': 'User', 'id': 'u'}, 'lead': 'x'}, 'parents': []}],
           [{'uid': {'type': 'Color', 'id': 'red'}, 'attrs': {}, 'parents': []}], [{'uid': {'type': 'Color', 'id': 'purple'}, 'attrs': {}, 'parents': []}],
           [{'uid': {'type': 'User', 'id': 'u'}, 'attrs': {'n': 1, 's': 'x', 'b': True, 'ls': [1], 'r': {'x': 1}, 'm': {'type': 'User', 'id': 'u'}, 't': '2024-01-01', 'sr': []}, 'parents': [], 'tags': {'k': 1}}]]
 
